@@ -387,7 +387,9 @@ class MiniAdapter:
                     w["cls"][to[s]] = w["cls"][s]
                     w["orig"][to[s]] = w["orig"][s]
             elif n == "MakeReadOnly":
-                self.makeReadOnly(O[a["r"]])
+                from armi.reactor import reactorParameters
+
+                reactorParameters.makeParametersReadOnly(O[a["r"]])
             else:
                 raise tlc.MachineryError("unknown action " + n)
         except tlc.MachineryError:
@@ -590,7 +592,7 @@ class EdgeGraph:
         return out
 
 
-def cover(graph, adapter, targets, maxwalk=14):
+def cover(graph, adapter, targets, maxwalk=14, on_div=None):
     """Execute walks on fresh worlds until every target edge has been executed from a conforming state.
     Returns stats, divergences (one record per divergent edge)."""
     bad = set()
@@ -650,6 +652,8 @@ def cover(graph, adapter, targets, maxwalk=14):
                        "errtext": w.get("errtext", "") if got["err"] else "", "blocking": bool(d), "world": w}
                 divs.append(rec)
                 st["divergent"] += 1
+                if on_div is not None and on_div(rec):
+                    return st, divs
                 if s["_id"] in todo:
                     todo.discard(s["_id"])
                 if d:
@@ -1076,7 +1080,9 @@ class ReactorRecorder:
                     return None
                 r = rng.choice(roots)
                 a = {"n": "MakeReadOnly", "r": r}
-                self.makeReadOnly(O[r])
+                from armi.reactor import reactorParameters
+
+                reactorParameters.makeParametersReadOnly(O[r])
             elif kind == "RO":
                 cands = [i for i in frozen if RBIND[w["cls"][i]]]
                 if not cands:
@@ -1309,6 +1315,247 @@ def replay(payload):
         return 0
     print(payload.get("trace", "")[:20000] if direction == "tlc" else json.dumps(payload, indent=1, default=str)[:20000])
     return 0
+
+
+# ------------------------------------------------------------------------------------------------------------
+# binding demonstration: realistic in-process mutants of the anchored code
+# ------------------------------------------------------------------------------------------------------------
+def _mutants():
+    """(name, install() -> undo).  Each one still lets armi import and run; each is a different mechanism."""
+    armi_ready()
+    from armi.materials import material
+    from armi.reactor import composites, reactorParameters
+    from armi.reactor.components import component
+    from armi.reactor.grids import structuredGrid
+    from armi.reactor.parameters import parameterCollections as pc
+    from armi.reactor.parameters import parameterDefinitions as pdm
+
+    PC, P = pc.ParameterCollection, pdm.Parameter
+
+    def swap(obj, name, fn):
+        old = obj.__dict__[name] if isinstance(obj, type) else getattr(obj, name)
+        setattr(obj, name, fn)
+        return lambda: setattr(obj, name, old)
+
+    out = []
+
+    def m_outer():  # the pickled backup does not contain the outer backup
+        def backUp(self):
+            st = self.__getstate__()
+            st[self._allFields.index("_backup")] = None
+            self._backup = pickle.dumps(st)
+            self.assigned &= ~pdm.SINCE_BACKUP
+        return swap(PC, "backUp", backUp)
+    out.append(("collection backup drops the outer backup", m_outer))
+
+    def m_keep_ignored():
+        orig = PC.restoreBackup
+        return swap(PC, "restoreBackup", lambda self, keep: orig(self, set()))
+    out.append(("restoreBackup ignores the keep-set", m_keep_ignored))
+
+    def m_keep_all():
+        orig = PC.restoreBackup
+        return swap(PC, "restoreBackup", lambda self, keep: orig(self, set(self.paramDefs)))
+    out.append(("restoreBackup keeps every assigned parameter", m_keep_all))
+
+    def m_keep_wrong():  # keep-set applied to the wrong collection: definitions matched by NAME across classes
+        orig = PC.restoreBackup
+
+        def restoreBackup(self, keep):
+            names = {pd.name for pd in keep}
+            return orig(self, {pd for pd in self.paramDefs if pd.name in names} | {pd for pd in self.paramDefs if pd.name == "power" and "temperatureInC" in names})
+        return swap(PC, "restoreBackup", restoreBackup)
+    out.append(("keep-set applied to another class's parameter", m_keep_wrong))
+
+    def m_bit():
+        def backUp(self):
+            self._backup = pickle.dumps(self.__getstate__())
+        return swap(PC, "backUp", backUp)
+    out.append(("backUp does not clear SINCE_BACKUP", m_bit))
+
+    def m_cache():
+        def restoreBackup(self, keep):
+            self.p.restoreBackup(keep)
+            _dropped, self._backupCache = self._backupCache
+            if self.spatialGrid:
+                self.spatialGrid.restoreBackup()
+        return swap(composites.ArmiObject if "restoreBackup" in composites.ArmiObject.__dict__ else composites.Composite,
+                    "restoreBackup", restoreBackup)
+    out.append(("composite cache computed inside the scope survives it", m_cache))
+
+    def m_mcache():
+        def restoreBackup(self, keep):
+            _dropped, self._backupCache = self._backupCache
+        return swap(material.Material, "restoreBackup", restoreBackup)
+    out.append(("material cache computed inside the scope survives it", m_mcache))
+
+    def m_serial():
+        orig = PC.__deepcopy__
+
+        def dc(self, memo):
+            new = orig(self, memo)
+            object.__setattr__(new, "_p_serialNum", self.serialNum)
+            return new
+        return swap(PC, "__deepcopy__", dc)
+    out.append(("__deepcopy__ reuses the serial number", m_serial))
+
+    def m_shallow():
+        def dc(self, memo):
+            memo[id(self)] = new = self.__class__(_state=list(self.__getstate__()))
+            return new
+        return swap(PC, "__deepcopy__", dc)
+    out.append(("__deepcopy__ shares the stored values with the original", m_shallow))
+
+    def m_ro_depth():
+        def mro(r):
+            r.p.readOnly = True
+            for c in r:
+                c.p.readOnly = True
+        return swap(reactorParameters, "makeParametersReadOnly", mro)
+    out.append(("read-only not propagated below the first level", m_ro_depth))
+
+    def m_ro_open():
+        def sa(self, key, value):
+            assert key in self._slots
+            if getattr(self, "readOnly", False) and key == "readOnly":
+                raise RuntimeError("A read-only Parameter Collection cannot be made writeable.")
+            object.__setattr__(self, key, value)
+        return swap(PC, "__setattr__", sa)
+    out.append(("read-only collection only protects its readOnly switch", m_ro_open))
+
+    def m_pdflag():
+        def rb(self, keep):
+            self._backup, _assigned = self._backup
+        return swap(P, "restoreBackup", rb)
+    out.append(("Parameter.restoreBackup never restores assigned", m_pdflag))
+
+    def m_bounds():
+        def rb(self):
+            self._unitSteps, _bounds, self._offset = self._backup
+        return swap(structuredGrid.StructuredGrid, "restoreBackup", rb)
+    out.append(("grid restore forgets the bounds", m_bounds))
+
+    def m_nogrid():
+        def rb(self, keep):
+            self.p.restoreBackup(keep)
+            self.cached, self._backupCache = self._backupCache
+        return swap(composites.ArmiObject if "restoreBackup" in composites.ArmiObject.__dict__ else composites.Composite,
+                    "restoreBackup", rb)
+    out.append(("grids are not restored at all", m_nogrid))
+
+    def m_shallow_scope():
+        def helper(self, func):
+            pds = set(self.composite.p.paramDefs)
+            func(self.composite)
+            for pd in pds:
+                func(pd)
+        return swap(composites.StateRetainer, "_enterExitHelper", helper)
+    out.append(("scope does not reach the descendants", m_shallow_scope))
+
+    def m_ndflag():  # the in-place mutator forgets to flag the collection
+        orig = component.Component.updateNumberDensities
+
+        def und(self, nd, wipe=False):
+            before = self.p.assigned
+            orig(self, nd, wipe=wipe)
+            if not wipe:
+                object.__setattr__(self.p, "assigned", before)
+        return swap(component.Component, "updateNumberDensities", und)
+    out.append(("setNumberDensity does not flag the collection", m_ndflag))
+
+    def m_exit_order():  # restore in one slot for the collection too (like the grid): last backup wins
+        def rb(self, keep):
+            data = pickle.loads(self._backup)
+            keepb = self._backup
+            PC.__setstate__(self, data)
+            object.__setattr__(self, "_backup", keepb)
+        return swap(PC, "restoreBackup", rb)
+    out.append(("collection keeps a single backup slot", m_exit_order))
+    return out
+
+
+def selftest():
+    """prints caught/MISSED per mutant; 0 iff everything was caught (and TLC refutes the as-built mechanism)"""
+    rc = 0
+    # 0. the specification's own properties are not vacuous: the mechanism as built is refuted by TLC
+    res = tlc.run("RetainState_mc", "RetainState_asbuilt.cfg", MODDIR, workers=4, want_prints=False, timeout=600)
+    ok = res.violation is not None
+    print("spec-level: as-built mechanism (single grid slot, pickle keeps serial) %s by TLC (%s)" % (
+        "caught: refuted" if ok else "MISSED: accepted", res.violation["name"] if ok else "-"))
+    rc |= 0 if ok else 1
+    graphs = {}
+    for focus, cfgs in EMIT.items():
+        r = tlc.run("RetainState_mc", cfgs[0], MODDIR, workers=1, coverage=False, timeout=3000)
+        graphs[focus] = EdgeGraph(r.prints)
+    rec = ReactorRecorder()
+
+    class Rep:
+        def __init__(self):
+            self.keys = {}
+
+        def violation(self, key, what, payload=None):
+            self.keys.setdefault(key, what)
+
+    def keys_of(stop_at_new=None):
+        rep = Rep()
+        adapters = {p: MiniAdapter(p) for p in PROFILES}
+        for focus in ("copy", "grid", "params"):
+            g = graphs[focus]
+            for pi, prof in enumerate(PROFILES):
+                ad = adapters[prof]
+
+                def on_div(d, ad=ad, g=g):
+                    d["root"] = g.rootvars
+                    k = report_div(rep, dict(d), ad, "replay")
+                    return stop_at_new is not None and k not in stop_at_new
+                st, divs = cover(g, ad, [i for i in range(len(g.edges)) if i % len(PROFILES) == pi], on_div=on_div)
+                if stop_at_new is not None and any(k not in stop_at_new for k in rep.keys):
+                    return rep.keys, "edge replay (%s, %s)" % (focus, prof)
+        if stop_at_new is not None:
+            out = traces_collect(False, 0, recorder=rec, ntraces=25)
+            for v in out["violations"]:
+                rep.keys.setdefault(v["key"], v["what"])
+            return rep.keys, "trace validation"
+        return rep.keys, "-"
+
+    base, _ = keys_of()
+    tb = traces_collect(False, 0, recorder=rec, ntraces=25)
+    for v in tb["violations"]:
+        base.setdefault(v["key"], v["what"])
+    print("baseline (unchanged code) reports: %s" % sorted(base))
+    for name, install in _mutants():
+        undo = install()
+        try:
+            try:
+                keys, where = keys_of(stop_at_new=base)
+                new = [k for k in keys if k not in base]
+            except tlc.MachineryError as ex:
+                new, where = ["machinery: " + str(ex)[:100]], "harness failure"
+        finally:
+            undo()
+        if new:
+            print("caught  %-58s by %s: %s" % (name, where, new[0]))
+        else:
+            print("MISSED  %s" % name)
+            rc = 1
+    # trace validator self-check: one corrupted field and one removed event must be rejected
+    rng = random.Random(5)
+    good = [rec.record("g%d" % i, 25, rng) for i in range(3)]
+    t = next((x for x in good if len(x["ev"]) > 6 and not any(e["post"]["err"] for e in x["ev"])), good[0])
+    c1 = json.loads(json.dumps(t, default=str))
+    c1["id"] = "corrupt-field"
+    c1["ev"][3]["post"]["rest"][0] += 1000
+    c2 = json.loads(json.dumps(t, default=str))
+    c2["id"] = "removed-event"
+    idx = next((i for i, e in enumerate(c2["ev"][:-1]) if e["a"]["n"] in ("Assign", "Enter", "SetGrid", "SetCache")), 0)
+    del c2["ev"][idx]
+    bad, _st = tracecheck.validate("RetainState_trace", "RetainState_trace.cfg", MODDIR, [c1, c2])
+    rejected = {b["trace"]["id"] for b in bad if "trace" in b}
+    for tid in ("corrupt-field", "removed-event"):
+        okk = tid in rejected
+        print("%s  trace validator on a %s trace" % ("caught " if okk else "MISSED ", tid))
+        rc |= 0 if okk else 1
+    return rc
 
 
 if __name__ == "__main__":
